@@ -430,7 +430,7 @@ def fam_merge(rule: str, tier: str, det):
         many = [[seq("KList", C(3), C(4))], [V2], [seq("KTuple", C(5), ("star", V3))], [("call", 1, [])], [V1],
                 [seq("KList", C(3)), V2], [], [seq("KSet", C(1), C(2))], [seq("KList", F0, F4)], [("star", V2)],
                 [seq("KList", LEN1)], [dct(kv(C(1), C(2)))], [C("aa")], [seq("KList", seq("KList", C(1)))],
-                [seq("KSet", C(1), C(True))]]
+                [seq("KSet", C(1), C(True))], [comp("CGen", ("call", 2, [N(3)]), X.DUMMY, 3, V2)]]
         mods += [("meth", x, m, a) for m in ("extend", "update") for a in many]
         mods += [("meth", 2, "append", [C(1)]), ("setitem", x, C(0), C(9))]
         small = [("meth", x, "append", [C(2)]), ("meth", x, "add", [C(True)]), ("meth", x, "extend", [seq("KList", C(3), F0)]),
